@@ -111,6 +111,14 @@ SUPPRESSIONS = [
     ),
     Suppression(
         "aiomysensors.transport.mqtt.MQTTTransport._parse_message_to_mqtt",
+        r"^\w+(\.rstrip\(\))?\.(splitlines|split)\([^()]*\)\[(0|-1)\]$",
+        S.IE,
+        "the argument is a line produced by MessageSchema.dump (A4): never empty (it ends in a newline), and splitting a non-empty string yields at least one element",
+        "dumped_line_first_element",
+        "A4",
+    ),
+    Suppression(
+        "aiomysensors.transport.mqtt.MQTTTransport._parse_message_to_mqtt",
         r".*",
         S.VE,
         "the argument is a line produced by MessageSchema.dump (A4): six ';'-joined fields whose 4th is str(int)",
@@ -550,6 +558,12 @@ class EEA:
         from .rules import codec
 
         return codec.command_membership_enforced(self.I)
+
+    def _premise_dumped_line_first_element(self, site: Site) -> bool:
+        """The subscripted split is applied to the function's line parameter itself."""
+        f = self.prog.func(site.func)
+        params = [p for p in f.positional_params if p not in ("self", "cls")]
+        return bool(params) and site.text.split(".", 1)[0] == params[0] and not any(isinstance(n, ast.Name) and n.id == params[0] and isinstance(n.ctx, ast.Store) for n in ast.walk(f.node))
 
     def _premise_dumped_line_shape(self, site: Site) -> bool:
         from .rules import codec
